@@ -475,6 +475,18 @@ func encClassifier(c *Ctx, fn *ssa.Function, varintEnc string) func(*wctx, ssa.I
 				}
 			}
 		}
+		// a block of raw bytes appended at once (a []byte field or a window of one)
+		if st, ok := y.Type().Underlying().(*types.Slice); ok && isByte(st.Elem()) {
+			base := y
+			if sl, ok := base.(*ssa.Slice); ok {
+				base = sl.X
+			}
+			if ld, ok := base.(*ssa.UnOp); ok && ld.Op == token.MUL {
+				if _, isField := ld.X.(*ssa.FieldAddr); isField {
+					return "S"
+				}
+			}
+		}
 		return "?"
 	}
 }
@@ -491,7 +503,7 @@ func decClassifier(c *Ctx, varintDec string) func(*wctx, ssa.Instruction) string
 				return "B"
 			}
 			if call.Call.IsInvoke() && call.Call.Method.Name() == "Read" {
-				return "?"
+				return "S"
 			}
 			return ""
 		}
@@ -500,7 +512,9 @@ func decClassifier(c *Ctx, varintDec string) func(*wctx, ssa.Instruction) string
 			return "U"
 		case f.String() == "(*bytes.Reader).ReadByte" || f.String() == "(*bufio.Reader).ReadByte":
 			return "B"
-		case f.String() == "io.ReadFull" || f.String() == "(*bytes.Reader).Read" || f.String() == "io.ReadAll":
+		case f.String() == "io.ReadFull" || f.String() == "(*bytes.Reader).Read" || f.String() == "(*bytes.Buffer).Read" || f.String() == "(*bytes.Buffer).Next" || f.String() == "(*bufio.Reader).Read":
+			return "S" // a block of raw bytes taken at once
+		case f.String() == "io.ReadAll":
 			return "?"
 		}
 		return ""
@@ -849,7 +863,7 @@ func stripAll(v ssa.Value) ssa.Value {
 func init() {
 	register(&propDef{
 		id:          "C14",
-		explanation: "Decides that encoder and decoder agree on the kind of every field on the wire: GRAMMAR reads the SSA control-flow graphs of GobEncode and GobDecode as NFAs over the tokens U (a varint: append of an encodeUint64 result / call of decodeUint64) and B (one raw byte: append of a single byte / ReadByte) and checks L(GobEncode) ⊆ L(GobDecode) by the subset construction, reporting the first token on which the product automaton is stuck; VARINT checks nine constant relations between encodeUint64 and decodeUint64 (single-byte threshold, prefix base, payload bound, total length, byte order, shift widths); OVERWRITE checks that GobDecode assigns every field of every node on every iteration of a loop, so a reused receiver keeps no stale state. Does not decide equality of words/ranks after a round trip.",
+		explanation: "Decides that encoder and decoder agree on the kind of every field on the wire: GRAMMAR reads the SSA control-flow graphs of GobEncode and GobDecode as NFAs over the tokens U (a varint: append of an encodeUint64 result / call of decodeUint64) and B (one raw byte: append of a single byte / ReadByte) and checks L(GobEncode) ⊆ L(GobDecode) by the subset construction, reporting the first token on which the product automaton is stuck; VARINT checks nine constant relations between encodeUint64 and decodeUint64 (single-byte threshold, prefix base, payload bound, total length, byte order, shift widths); OVERWRITE checks that GobDecode assigns every field of every node on every iteration of a loop, so a reused receiver keeps no stale state; FRESH also requires that GobDecode stores no memory of its input slice into the automaton (no zero-copy decode), and NARROWLEN that no length is converted to a type narrower than 64 bits without a proof that it fits (byte(len(links)) is 0 for 256 children). Blocks of raw bytes appended or read at once are a token of their own (S). Does not decide equality of words/ranks after a round trip.",
 		notDecided:  []string{"that the decoded automaton has the same words, ranks, node count and search results", "that re-encoding gives the same bytes", "that element counts on the wire match loop counts (regular approximation ignores counts)"},
 		assumptions: []string{"every byte of the output is appended through the recognised primitives (an unrecognised append to the output chain is 'undecided' and fails)"},
 		run: func(c *Ctx, tier string) []*RuleResult {
@@ -863,7 +877,22 @@ func init() {
 			noWrites(c, fr, ge, nil, "the Dawg or any shared state")
 			ow := &RuleResult{Rule: "OVERWRITE", Doc: "GobDecode assigns every field of every node on every iteration of a loop (or resets the receiver as a whole): no stale state of a reused receiver survives", MinInst: 1}
 			ruleOverwrite(c, ow, "(*dawg.Dawg).GobDecode", "dawg", "Dawg")
-			return []*RuleResult{g, v, ow, fr}
+			// the decoded automaton keeps nothing of the input slice (a zero-copy decode would change
+			// with the caller's buffer) and no narrowing conversion of a length is unproved
+			gd := c.Fn("(*dawg.Dawg).GobDecode")
+			fr.inst("(*dawg.Dawg).GobDecode: the receiver keeps no memory of the input")
+			E := c.Eff()
+			keeps := false
+			for _, e := range E.sums[gd].Stores {
+				if e.src.Root >= 1 && e.src.Root < len(gd.Params) && e.dst.Root == 0 {
+					keeps = true
+					fr.find("(*dawg.Dawg).GobDecode:keeps "+gd.Params[e.src.Root].Name(), c.pos(gd.Pos()), "GobDecode stores memory of its argument %s into the automaton (%s <- %s): the decoded Dawg changes when the caller reuses the buffer it decoded from", gd.Params[e.src.Root].Name(), E.apString(gd, e.dst), E.apString(gd, e.src))
+					break
+				}
+			}
+			fr.oblig(!keeps)
+			nl := ruleNarrowLen(c, inFiles("dawg.go"))
+			return []*RuleResult{g, v, ow, fr, nl}
 		},
 		controls: func(ctl *Ctx) []*RuleResult {
 			g := &RuleResult{Rule: "GRAMMAR"}
@@ -978,4 +1007,47 @@ func ruleOverwrite(c *Ctx, r *RuleResult, fnName, pkgRel, typ string) {
 			}
 		}
 	}
+}
+
+// ruleNarrowLen: a length or count written on the wire (or kept) in a type narrower than int must be
+// proved to fit it: byte(len(links)) is 0 for a node with 256 children.
+func ruleNarrowLen(c *Ctx, files func(string) bool) *RuleResult {
+	r := &RuleResult{Rule: "NARROWLEN", Doc: "a len(...) converted to an integer type narrower than 64 bits is proved to fit", MinInst: 0}
+	for _, fn := range c.Funcs {
+		if fn.Synthetic != "" || fn.Blocks == nil || !files(c.Fset.Position(fn.Pos()).Filename) {
+			continue
+		}
+		var P *Prover
+		for _, b := range fn.Blocks {
+			for _, in := range b.Instrs {
+				cv, ok := in.(*ssa.Convert)
+				if !ok || !isInt(cv.Type()) || !isInt(cv.X.Type()) || intBits(cv.Type()) >= 64 {
+					continue
+				}
+				call, ok := stripAll(cv.X).(*ssa.Call)
+				if !ok {
+					continue
+				}
+				if bi, isB := call.Call.Value.(*ssa.Builtin); !isB || bi.Name() != "len" {
+					continue
+				}
+				if P == nil {
+					P = NewProver(c, fn)
+				}
+				_, hi, _ := typeRange(cv.Type())
+				v := P.poly(cv.X)
+				src := c.srcAt(cv.Pos())
+				if src == "" {
+					src = valName(cv)
+				}
+				r.inst("%s: %s", c.short(fn), src)
+				ok2 := P.Prove(v.add(constP(-hi), 1), b)
+				r.oblig(ok2)
+				if !ok2 {
+					r.find(c.short(fn)+":narrow length "+src, c.instrPos(cv), "%s converts the length %s to a %d-bit integer without a proof that it is at most %d: one element more and the count wraps (a node with 256 children is written as having none)", c.short(fn), P.showTerm(v), intBits(cv.Type()), hi)
+				}
+			}
+		}
+	}
+	return r
 }
